@@ -2,9 +2,12 @@
 
 spec/Signature.tla, mode "expr": default-value expressions as trees built node by node (TLC states); the
 reference printer follows Python's grammar and TLC decides Parse(Print(e)) = e; an implementation-shaped
-transcription of CodeWriter.ExpressionWriter predicts which trees the embedded signature gets wrong and TLC
-decides that every such tree carries a catalogued root cause.  Mode "sig": parameter lists x nesting paths
-with QualName(path).
+transcription of CodeWriter.ExpressionWriter (as repaired for KF-C25-1..6) predicts which trees the embedded
+signature gets wrong and TLC decides that every such tree carries a catalogued root cause (only "inlist" is
+left; the six repaired classes -- one-element tuples, comparison chains, same-precedence operands, conditional
+expressions, primary bases, negative bases of ** -- stay as tags: replay strata + vacuity).  The model's text is
+also compared with the real text token by token (evidence counters).  Mode "sig": parameter lists x nesting
+paths with QualName(path).
 Binding B1: every published case is rendered as source (defaults in module, class and nested scopes; functions
 on every nesting path), compiled with binding=True / embedsignature (formats python, c, clinic) and observed in
 a child process: inspect.signature (names, kinds, default values), __name__/__qualname__/__module__/__doc__,
@@ -36,7 +39,8 @@ THOROUGH = {"cfgs": [("Signature_t2", 3000), ("Signature_t3", 3000)],
             "fe_fmts": ["python", "c"], "n_expr": {"python": 3000, "c": 1000}, "n_sig": 300, "per_fn": 10, "per_mod": 150, "jobs": None}
 
 SIG_DEFAULTS = ["100", "'s'", "None", "(1, 2)", "-1.5", "K"]
-HAZARD_TAGS = ["assoc", "chain", "cond", "inlist", "negpow", "primary", "tuple1"]
+HAZARD_TAGS = ["assoc", "chain", "cond", "inlist", "negpow", "primary", "tuple1"]     # Tags(e) of the spec: classes at stake
+CAUSES = ["inlist"]                 # Causes of the spec: what the current writer still gets wrong (KF-C25-10)
 SCOPES = ["module", "class", "nested"]
 LAYOUTS = [["pk"] * 10, ["po"] * 3 + ["pk"] * 3 + ["ko"] * 4, ["pk"] * 5 + ["ko"] * 5]
 
@@ -54,8 +58,9 @@ def run_tlc(cfgs, cov):
 
 
 def vacuity(expr_cases, sig_cases):
-    """Counts of case classes of the MODEL: every constructor kind, every root cause alone with a hazard, every
-    nesting kind and parameter kind must occur."""
+    """Counts of case classes of the MODEL: every constructor kind, every class of Tags alone on a tree the model makes a
+    prediction for (a hazard for the root causes left, a faithful text for the repaired classes), every nesting kind and
+    parameter kind must occur."""
     kinds = {}
 
     def walk(e):
@@ -67,8 +72,11 @@ def vacuity(expr_cases, sig_cases):
     need = ["name", "num", "atom", "opq", "un", "bin", "bool", "cmp", "cond", "tuple", "list", "dict", "attr", "sub",
             "call", "kw", "slice"]
     miss = [k for k in need if not kinds.get(k)]
-    single = {t: sum(1 for c in expr_cases if c["hazard"] and c["tags"] == [t]) for t in HAZARD_TAGS}
+    single = {t: sum(1 for c in expr_cases if c["hazard"] and c["tags"] == [t]) for t in CAUSES}
     miss += ["hazard:" + t for t, n in single.items() if not n]
+    alone = {t: sum(1 for c in expr_cases if not c["foldish"] and c["tags"] == [t] and c["hazard"] == (t in CAUSES))
+             for t in HAZARD_TAGS}
+    miss += ["class:" + t for t, n in alone.items() if not n]
     if not any(not c["hazard"] and c["nops"] >= 2 and not c["foldish"] for c in expr_cases):
         miss.append("clean-2-operator-tree")
     pk = {}
@@ -82,7 +90,7 @@ def vacuity(expr_cases, sig_cases):
               "fn", "cls", "ccls", "static", "classm", "def"]:
         if k not in pk:
             miss.append("sig:%s" % (k,))
-    return kinds, single, miss
+    return kinds, single, alone, miss
 
 
 # ---------------------------------------------------------------------------------------------
@@ -331,6 +339,27 @@ def check_embedded_default(case, text):
     return "embed-mismatch", {"text": text, "parses_as": ast.unparse(c_ast)}
 
 
+# leaves whose source text the writer reproduces verbatim (other literals are re-spelled: 0x1F, 1_000, 'ab' "cd", -0, ...)
+VERBATIM = {"K", "L", "M", "i1", "ibig", "f15", "s_a", "None", "True", "False", "Ellipsis", "lambda", "walrus", "fstring"}
+
+
+def leaves(e, out=None):
+    out = set() if out is None else out
+    if e["k"] in ("name", "num", "atom", "opq"):
+        out.add(e["v"][0])
+    for x in e["c"]:
+        leaves(x, out)
+    return out
+
+
+def model_text_differs(case, text):
+    """The text PI (the transcription of the writer in the specification) prints vs the real text, modulo blanks.
+    -> None (no statement: foldable tree / re-spelled literal), False (same), True (differs)"""
+    if case["foldish"] or not leaves(case["ast"]) <= VERBATIM:
+        return None
+    return "".join(L.token_text(t) for t in case["impl"]).replace(" ", "") != text.replace(" ", "")
+
+
 def bool_index(e):
     """spec-side: some subscript index / slice bound is a bool-typed expression (not x, a comparison, True/False)"""
     def is_bool(x):
@@ -398,7 +427,7 @@ def run(tier, seed):
                 seen.add(key)
                 expr_all.append(c)
     sig_all = [c for c in printed if c.get("mode") == "sig"]
-    kinds, single, miss = vacuity(expr_all, sig_all)
+    kinds, single, alone, miss = vacuity(expr_all, sig_all)
     if miss:
         core.die("vacuity guard: the model never produced %s" % miss)
 
@@ -508,6 +537,7 @@ def run(tier, seed):
     nontriv = set()
     samples = []
     stale = {}
+    textcmp = {"compared": 0, "differs": []}
     # ---- P: the CPython twins (one per distinct source)
     pydir = os.path.join(wd, "py")
     os.makedirs(pydir, exist_ok=True)
@@ -558,6 +588,12 @@ def run(tier, seed):
                     rep.disagree(dict(expr_desc(c, "embed", fmt, "module"), via="frontend"), r_[0], dict(r_[1], src=c["src"]))
                 if not c["foldish"] and bool(r_) != bool(c["hazard"]):
                     stale.setdefault("predicted" if c["hazard"] else "unpredicted", []).append(c["src"])
+                td = None if parts is None else model_text_differs(c, parts[n])
+                if td is not None:
+                    textcmp["compared"] += 1
+                    if td:
+                        textcmp["differs"].append({"src": c["src"], "fmt": fmt, "real": parts[n],
+                                                   "model": " ".join(L.token_text(t) for t in c["impl"])})
     fe_pool.shutdown()
     phase["frontend_wait"] = round(time.time() - t0 - sum(phase.values()), 1)
 
@@ -750,10 +786,13 @@ def run(tier, seed):
         "foldable_texts_accepted_by_value_examples": sorted(set(BY_VALUE))[:8],
         "expr_cases_published": len(expr_all), "expr_cases_raising_at_definition": n_raise, "expr_cases_replayed": len(chosen),
         "sig_cases_published": len(sig_all), "sig_cases_replayed": len(sig_chosen),
-        "model_node_kinds": kinds, "model_single_cause_hazards": single,
+        "model_node_kinds": kinds, "model_single_cause_hazards": single, "model_single_class_cases": alone,
         "model_hazards_published": sum(1 for c in expr_all if c["hazard"]),
         "impl_model_vs_real": {"hazard_predicted_but_text_faithful": len(stale.get("predicted", [])),
                                "text_wrong_but_not_predicted": len(stale.get("unpredicted", [])),
+                               "front_end_texts_compared_with_model_text": textcmp["compared"],
+                               "front_end_text_differs_from_model_text": len(textcmp["differs"]),
+                               "text_difference_examples": textcmp["differs"][:5],
                                "examples": {k: v[:5] for k, v in stale.items()}},
         "phase_s": phase,
         "functions_rejected_by_compiler": n_compile_rejects, "compiler_rejections": rejects[:6],
@@ -765,6 +804,7 @@ def run(tier, seed):
     })
     if os.environ.get("VERIF_C25_DUMP"):
         core.write_ndjson(os.environ["VERIF_C25_DUMP"], [{"desc": d, "detail": x} for d, x in rep.violations])
+        core.write_ndjson(os.environ["VERIF_C25_DUMP"] + ".text", textcmp["differs"])
         core.write_ndjson(os.environ["VERIF_C25_DUMP"] + ".kf", [{"kf": k, "detail": x} for k, v in rep.kf_hits.items() for x in v])
     if n_compile_rejects > 0.05 * max(1, len(fns)):
         core.die("the compiler rejected %d of %d generated functions: %s" % (n_compile_rejects, len(fns), rejects[:3]))
